@@ -46,6 +46,16 @@
 //! `disk-*` name the race the run contains (shared temporary name, put/remove, stale get, a get
 //! with an old index entry serving the file of a put that is not indexed yet).
 //!
+//! MultiLayerCacheImpl under the same controller (hooks `ml.layer.after_<op>` + the layers' own;
+//! model = lean Model/MultiConc for two MemoryCache layers, memory above disk is oracle only):
+//!   mlrun layers=mm|md pre=<ops> t=<ops>|<ops>[|<ops>] s=<digits>
+//!   -> pre=.. r=.. tr=<sites>/<drain> l0=<entry_count>/<bytes>/<contents> l1=.. tk=<tracked keys>
+//! ops g c r z p as above, u<k>:<hex> / l<k>:<hex> = put_to_layer(k, v, 0 / 1). Oracle: no
+//! failure, provenance, books per layer, a removed / cleared key is in no layer, and the answers
+//! + per-layer contents are linearizable on the layered map; a run that only an order of the
+//! PER-LAYER accesses explains is the finding `ml-not-atomic-across-layers`, a run nothing
+//! explains is `ml-not-linearizable`.
+//!
 //! DynamicContainer: `dstress …` lines = free-running rounds on 2-4 real threads (no hooks, no
 //! model; the driver answers the constant `oracle-only`). The round number picks the shape of
 //! the round (DYN_MODES: read-of-indexed-key || write-of-other-key, write || write,
@@ -2660,12 +2670,6 @@ mod real {
                 _ => None,
             }
         }
-        fn key(&self) -> Option<usize> {
-            match self {
-                MOp::Get(k) | MOp::Contains(k) | MOp::Remove(k) | MOp::Put(k, _) | MOp::PutTo(k, _, _) => Some(*k),
-                MOp::Clear => None,
-            }
-        }
         fn writes(&self) -> Option<(usize, &Vec<u8>, usize)> {
             match self {
                 MOp::Put(k, v) => Some((*k, v, 0)),
@@ -2819,7 +2823,7 @@ mod real {
         };
         // the layers spawn their cleanup / sync tasks at construction: on a runtime with a paused
         // clock that nobody drives, so the tasks exist (as in production) but never run
-        let bg = tokio::runtime::Builder::new_current_thread().enable_all().start_paused(true).build().expect("rt");
+        let bg = tokio::runtime::Builder::new_current_thread().enable_time().start_paused(true).build().expect("rt");
         let cache: Arc<MlCache> = {
             let _g = bg.enter();
             Arc::new(MlCache::new(mc).expect("config"))
@@ -3058,6 +3062,18 @@ mod real {
             }
         }
         let clear_overlap = ops.iter().any(|(t, _, o, a)| matches!(o, MOp::Clear) && ops.iter().any(|(u, _, _, b)| u != t && overlap(*a, *b)));
+        // memory above disk: a get that had looked the key up in the disk index (parked before its
+        // file read, or on the expired path) while another thread's remove of the key / clear / get
+        // overlaps it: the disk layer's failed-read path books what the get saw earlier (finding
+        // disk-counter-drift-stale-get of the DiskCache section)
+        let stale_disk_get = case.disk
+            && ops.iter().any(|(t, i, o, a)| match o {
+                MOp::Get(k) => {
+                    out.d.steps.iter().any(|s| s.tid == *t && s.op == *i && (s.after == 'G' || s.after == 'F'))
+                        && ops.iter().any(|(u, _, o2, b)| u != t && overlap(*a, *b) && (matches!(o2, MOp::Clear) || matches!(o2, MOp::Remove(k2) | MOp::Get(k2) if k2 == k)))
+                }
+                _ => false,
+            });
         // no operation fails
         for (t, rs) in out.results.iter().enumerate() {
             for (i, r) in rs.iter().enumerate() {
@@ -3099,7 +3115,13 @@ mod real {
         for (l, lay) in out.layers.iter().enumerate() {
             let total: u64 = lay.contents.values().map(|v| v.len() as u64).sum();
             if lay.n != lay.contents.len() as u64 || lay.b != total {
-                let sig = if clear_overlap { "mem-clear-races-put" } else { "ml-layer-books-quiescent" };
+                let sig = if l > 0 && stale_disk_get {
+                    "disk-counter-drift-stale-get"
+                } else if clear_overlap && !(case.disk && l > 0) {
+                    "mem-clear-races-put"
+                } else {
+                    "ml-layer-books-quiescent"
+                };
                 fails.push((sig.into(), format!("at quiescence layer {l} reports entry_count={} memory_usage={} but holds {} entries of {} bytes", lay.n, lay.b, lay.contents.len(), total)));
             }
         }
@@ -3191,6 +3213,75 @@ mod real {
                 r.memit(case, &out);
                 (out.d.steps.iter().map(|s| s.tid).collect(), out.d.alive.clone(), out.d.timeout)
             },
+            cap,
+        )
+    }
+
+    /// Every schedule of a case with at most `bound` preemptions (a preemption = a step given
+    /// to another thread although the thread that took the previous step could have gone on;
+    /// between two of its operations as well as inside one), stateless depth-first search driven
+    /// by the real execution like `dfs`. Past the prefix under exploration the schedule goes on
+    /// without preemption: same thread while it lives, then the lowest live one.
+    fn dfs_pb(run: &mut dyn FnMut(&mut dyn FnMut(usize, &[usize]) -> Choice) -> (Vec<usize>, Vec<Vec<usize>>, bool), bound: usize, cap: usize) -> (usize, bool) {
+        // candidates of a step in exploration order: the previous thread first
+        fn cands(prev: Option<usize>, alive: &[usize]) -> Vec<usize> {
+            match prev {
+                Some(p) if alive.contains(&p) => std::iter::once(p).chain(alive.iter().copied().filter(|t| *t != p)).collect(),
+                _ => alive.to_vec(),
+            }
+        }
+        let mut prefix: Vec<usize> = vec![];
+        let mut count = 0;
+        loop {
+            let p = prefix.clone();
+            let mut prev: Option<usize> = None;
+            let mut ch = |i: usize, alive: &[usize]| {
+                let t = if i < p.len() { p[i] } else { cands(prev, alive)[0] };
+                prev = Some(t);
+                Choice::Tid(t)
+            };
+            let (chosen, alive, timeout) = run(&mut ch);
+            count += 1;
+            if timeout || count >= cap {
+                return (count, true);
+            }
+            // preemptions used before step i
+            let mut used = vec![0usize; chosen.len() + 1];
+            for i in 0..chosen.len() {
+                let pre = i > 0 && chosen[i] != chosen[i - 1] && alive[i].contains(&chosen[i - 1]);
+                used[i + 1] = used[i] + pre as usize;
+            }
+            let mut i = chosen.len();
+            let mut found = false;
+            while i > 0 && !found {
+                i -= 1;
+                let prev = if i > 0 { Some(chosen[i - 1]) } else { None };
+                let cs = cands(prev, &alive[i]);
+                let at = cs.iter().position(|t| *t == chosen[i]).unwrap_or(cs.len());
+                for nx in cs.iter().skip(at + 1) {
+                    let pre = prev.is_some_and(|p| *nx != p && alive[i].contains(&p));
+                    if used[i] + pre as usize <= bound {
+                        prefix = chosen[..i].to_vec();
+                        prefix.push(*nx);
+                        found = true;
+                        break;
+                    }
+                }
+            }
+            if !found {
+                return (count, false);
+            }
+        }
+    }
+
+    fn mrun_pb(r: &mut Runner, case: &MCase, bound: usize, cap: usize) -> (usize, bool) {
+        dfs_pb(
+            &mut |ch| {
+                let out = mexecute(case, ch);
+                r.memit(case, &out);
+                (out.d.steps.iter().map(|s| s.tid).collect(), out.d.alive.clone(), out.d.timeout)
+            },
+            bound,
             cap,
         )
     }
@@ -3432,7 +3523,7 @@ mod real {
         let (alpha, pres) = (malphabet(), mpres());
         // J. every schedule of every pair of single operations, over every start state
         let (mut sets, mut truncated) = (0u64, 0u64);
-        for pre in &pres {
+        for pre in &pres[..if thorough { 6 } else { 4 }] {
             for a in &alpha {
                 for b in &alpha {
                     let case = MCase { disk: false, pre: pre.clone(), progs: vec![vec![a.clone()], vec![b.clone()]] };
@@ -3444,6 +3535,76 @@ mod real {
         }
         r.s.tally_n("J:ml-program-sets-1x1-all-schedules", sets);
         r.s.extra("wall_ms_ml_J", serde_json::json!(t0.elapsed().as_millis() as u64));
+        // K. one operation || two operations of another thread, on one key: every schedule with
+        //    at most 2 preemptions. The second thread first OBSERVES (get / contains) and then
+        //    acts (remove / clear / put / look again), or acts and then observes: what an
+        //    operation in flight has made visible binds what the next operation must do.
+        let t1 = Instant::now();
+        let (a1, b2, c3, d4) = (vec![0xa1], vec![0xb2, 0xb2], vec![0xc3; 3], vec![0xd4; 4]);
+        let first = [MOp::Put(0, a1), MOp::PutTo(0, c3, 0), MOp::PutTo(0, d4, 1), MOp::Remove(0), MOp::Clear];
+        let observe = [MOp::Get(0), MOp::Contains(0)];
+        let act = [MOp::Remove(0), MOp::Clear, MOp::Put(0, b2.clone())];
+        let mut seconds: Vec<Vec<MOp>> = vec![];
+        for o in &observe {
+            for x in act.iter().chain(observe.iter()) {
+                seconds.push(vec![o.clone(), x.clone()]);
+            }
+            for x in &act {
+                seconds.push(vec![x.clone(), o.clone()]);
+            }
+        }
+        for x in &act {
+            for y in &act[..2] {
+                seconds.push(vec![x.clone(), y.clone()]);
+            }
+        }
+        let (mut ksets, mut kscheds) = (0u64, 0u64);
+        // quick: empty / layer 1 only / both layers / layer 0 without a tracker
+        let kpres: Vec<&Vec<MOp>> = if thorough { pres.iter().collect() } else { vec![&pres[0], &pres[2], &pres[3], &pres[4]] };
+        for pre in kpres {
+            for a in &first {
+                for b in &seconds {
+                    let case = MCase { disk: false, pre: pre.clone(), progs: vec![vec![a.clone()], b.clone()] };
+                    let (n, tr) = mrun_pb(r, &case, if thorough { 3 } else { 2 }, 100_000);
+                    ksets += 1;
+                    kscheds += n as u64;
+                    truncated += tr as u64;
+                }
+            }
+        }
+        r.s.tally_n("K:ml-program-sets-1x2-schedules-with-at-most-2-preemptions", ksets);
+        r.s.tally_n("K:ml-schedules", kscheds);
+        r.s.extra("wall_ms_ml_K", serde_json::json!(t1.elapsed().as_millis() as u64));
+        // N. memory above disk (oracle only): the disk layer is written before the threads start
+        //    (put_to_layer in `pre`), the threads get / contains / put / remove / clear; one
+        //    operation || two operations, every schedule with at most 2 preemptions
+        let t3 = Instant::now();
+        let md_pres: Vec<Vec<MOp>> = if thorough { vec![pres[2].clone(), pres[3].clone(), vec![], pres[1].clone()] } else { vec![pres[2].clone(), pres[3].clone()] };
+        let mut nsets = 0u64;
+        for pre in &md_pres {
+            for a in first.iter().filter(|o| !matches!(o, MOp::PutTo(..)) || thorough).filter(|o| !matches!(o, MOp::PutTo(_, _, 1))) {
+                for b in seconds.iter() {
+                    let case = MCase { disk: true, pre: pre.clone(), progs: vec![vec![a.clone()], b.clone()] };
+                    let (_, tr) = mrun_pb(r, &case, 2, 100_000);
+                    nsets += 1;
+                    truncated += tr as u64;
+                }
+            }
+        }
+        r.s.tally_n("N:ml-memory+disk-program-sets-1x2-preemption-bounded", nsets);
+        r.s.extra("wall_ms_ml_N", serde_json::json!(t3.elapsed().as_millis() as u64));
+        // L. sampled 2 x 2 program sets: every schedule with at most 2 preemptions
+        let t2 = Instant::now();
+        let nl = if thorough { 600 } else { 30 };
+        for _ in 0..nl {
+            let pre = rng.pick(&pres).clone();
+            let prog = |rng: &mut Rng| vec![rng.pick(&alpha).clone(), rng.pick(&alpha).clone()];
+            let case = MCase { disk: false, pre, progs: vec![prog(rng), prog(rng)] };
+            let (_, tr) = mrun_pb(r, &case, if thorough { 3 } else { 2 }, 20_000);
+            truncated += tr as u64;
+        }
+        r.s.tally_n("L:ml-program-sets-2x2-preemption-bounded", nl);
+        r.s.extra("wall_ms_ml_L", serde_json::json!(t2.elapsed().as_millis() as u64));
         // M. random programs, random schedules: 2-3 threads, 1-3 operations
         let nm = if thorough { 40_000 } else { 2_000 };
         for i in 0..nm {
@@ -3465,7 +3626,7 @@ mod real {
         if let Err(e) = dyn_lin_selftest() {
             r.s.oracle_fail("harness-selftest-dyn-linearizability-search", &e, &[]);
         }
-        r.s.set_rule("one evaluation = one schedule replayed on the real MemoryCache or DiskCache by the controller, or one free-running DynamicContainer stress round (dstress); non-trivial = the schedule switches threads at least once inside an operation (between two of its shared-state accesses), every stress round counts; distinct = canonical request line (programs + executed schedule / round number)");
+        r.s.set_rule("one evaluation = one schedule replayed on the real MemoryCache, DiskCache or MultiLayerCacheImpl by the controller, or one free-running DynamicContainer stress round (dstress); non-trivial = the schedule switches threads at least once inside an operation (between two of its shared-state accesses), every stress round counts; distinct = canonical request line (programs + executed schedule / round number)");
         if let Some(f) = &args.replay {
             for l in read_case(f) {
                 match Case::parse(&l) {
